@@ -19,6 +19,12 @@ type ProtoSpec struct {
 	Gen      func(t *rapid.T, rec *Rec) Msg // documented supported field set
 	Cmp      func(m Msg) CompareOpts
 	PerFrame bool // the protocol reads one frame per underlying reader (websocket sub-protocols)
+	// SizePrefixed: a frame starts with a 4-byte big-endian size that is checked against the read limit
+	SizePrefixed bool
+	// AnnounceExempt reports prefixes that are not size announcements (e.g. unframed thrift clients)
+	AnnounceExempt func(prefix uint32) bool
+	// AllocKnownKey: key of a known finding because of which the allocation oracle cannot be applied to this protocol
+	AllocKnownKey string
 	// optional overrides for protocols whose body is not a raw byte string
 	Build    func(m Msg) socket.Message
 	Receiver func() socket.Message
